@@ -56,6 +56,13 @@ Theorem C14_rt_outside_K : forall d, rt d -> wx_fields d = true /\ K14 d = false
 Proof. exact rt_outside_K. Qed.
 Print Assumptions C14_rt_outside_K.
 
+(* 5. the class the ORACLES use on tapes that come out of the real parser ([k14p_class]: K plus the parser's habit of
+   inserting a second MixedContainer marker after an empty / `{`-first container value, which turns the writer's
+   flag on again) is inside the class of theorem 1: whatever the oracles treat as "must round-trip" is covered *)
+Theorem C14_oracle_class_inside : forall d, k14p_class d = 0%N -> K14 d = false.
+Proof. exact k14p_inside. Qed.
+Print Assumptions C14_oracle_class_inside.
+
 (* ------------------------------------------------------------------ INSIDE K: the known findings, as witnesses *)
 Open Scope N_scope.
 Definition S1 (x : N) : value := VScalar Unq [x].
